@@ -191,6 +191,10 @@ func (c *wsConnection) init() bool {
 			c.initPayload = make(InitPayload)
 			err := json.Unmarshal(m.payload, &c.initPayload)
 			if err != nil {
+				// the payload is not a JSON object: tell the client and close, like for
+				// any other message that cannot be decoded
+				c.sendConnectionError("invalid json")
+				c.close(websocket.CloseProtocolError, "decoding error")
 				return false
 			}
 		}
